@@ -1,8 +1,43 @@
 """C06: number-type conversion (dfkswap.c, dfknat.c, dfconv.c)"""
 from .core import ob, prop
 
-SW = dict(unit="dfconv_swap_u.c", file="hdf/src/dfkswap.c", cex_unwind=50)
+SW = dict(unit="dfconv_swap_u.c", file="hdf/src/dfkswap.c", cex_unwind=60)
+NA = dict(unit="dfconv_nat_u.c", file="hdf/src/dfknat.c", cex_unwind=60)
+N = 8
 
 for W in (2, 4, 8):
-    ob(f"sb{W}b_contig", "C06", entry=f"h_sb{W}b", enforce=f"DFKsb{W}b", loops=True, nloops=4, loopcls="P",
-       defines=["SS=0", "DS=0"], **SW)
+    ob(f"sb{W}b_zero", "C06", entry=f"h_sb{W}b_zero", enforce=f"DFKsb{W}b", unwind=1, **SW)
+    ob(f"sb{W}b_one", "C06", entry=f"h_sb{W}b_one", enforce=f"DFKsb{W}b", mode="proved-finite", unwind=2, **SW)
+    ob(f"sb{W}b_invol", "C06", entry=f"h_invol{W}", mode="proved-finite", unwind=2, **SW)
+    for ip in (0, 1):
+        ob(f"sb{W}b_contig_{'in' if ip else 'out'}", "C06", entry=f"h_sb{W}b", enforce=f"DFKsb{W}b", mode="bounded",
+           bound=f"num_elm <= {N}", unwind=N + 1, defines=["SS=0", "DS=0", f"NMAX={N}", f"INPLACE={ip}"], **SW)
+
+def pairs(W):
+    """constant stride pairs of the design (plus two equal pairs with gaps for the in-place strided path)"""
+    ps = [(W, W), (W, 2 * W), (2 * W, W), (W, 3 * W), (3 * W, W), (W, W + 1), (W + 1, W), (2 * W, 2 * W), (W + 1, W + 1)]
+    out = []
+    for p in ps:
+        if p not in out:
+            out.append(p)
+    return out
+
+
+for W in (2, 4, 8):
+    for (ss, ds) in pairs(W):
+        for ip in ((0, 1) if ss == ds else (0,)):
+            ob(f"sb{W}b_str_{ss}_{ds}_{'in' if ip else 'out'}", "C06", entry=f"h_sb{W}b", enforce=f"DFKsb{W}b", mode="bounded",
+               bound=f"num_elm <= {N}, strides ({ss},{ds})", unwind=N + 1,
+               defines=[f"SS={ss}", f"DS={ds}", f"NMAX={N}", f"INPLACE={ip}"], **SW)
+    for ip in (0, 1):
+        ob(f"sb{W}b_symstr_{'in' if ip else 'out'}", "C06", entry=f"h_sb{W}b", enforce=f"DFKsb{W}b", mode="bounded",
+           bound=f"num_elm <= 4, all strides {W}..65535" + (" (equal)" if ip else ""), unwind=5,
+           defines=["NMAX=4", f"INPLACE={ip}"], tier="thorough", **SW)
+
+SE = dict(unit="dfconv_set_u.c", file="hdf/src/dfconv.c")
+ob("DFKsetNT", "C06", entry="h_setnt", enforce="DFKsetNT", **SE)
+ob("DFKNTsize", "C06", entry="h_ntsize", enforce="DFKNTsize", **SE)
+ob("DFKislitendNT", "C06", entry="h_islitend", enforce="DFKislitendNT", **SE)
+ob("DFKisnativeNT", "C06", entry="h_isnative", enforce="DFKisnativeNT", **SE)
+ob("DFKconvert", "C06", entry="h_convert", enforce="DFKconvert", **SE)
+ob("nt_flavours", "C06", entry="h_flavours", **SE)
